@@ -39,3 +39,9 @@ CORPUS = [
       "        if ip in self._discovered_ips:\n            return\n        else:\n            self._discovered_ips.add(ip)\n", "S"),
     M("n-catch-exception", D, "        except (ValueError, LookupError, OSError, ET.ParseError) as e:", "        except Exception as e:", "S"),
 ]
+# round 4 (C18.a): the result is built from every recorded task; nothing takes tasks out of the record
+CORPUS += [
+    M("finished-tasks-dropped", D, "        self.tasks.add(task)\n", "        self.tasks.add(task)\n        task.add_done_callback(self.tasks.discard)\n"),
+    M("result-from-first-task-only", D, "        devices = await asyncio.gather(*protocol.tasks)", "        devices = await asyncio.gather(*list(protocol.tasks)[:1])"),
+    M("n-gather-over-list", D, "        devices = await asyncio.gather(*protocol.tasks)", "        devices = await asyncio.gather(*list(protocol.tasks))", "S"),
+]
